@@ -105,7 +105,7 @@ def generate(rs: int, tier: str, index: int) -> dict:
         return {"property": ID, "run_seed": rs, "tier": tier, "prelude": prelude.gen_prelude(core.Chooser(rs, "prelude")), "steps": [{"id": 0, "k": "mulrow", "b": (index - 10) * 20 + ch.below(20), "top": 600}]}
     if ch.chance(0.03):
         # powers whose exponent cannot be represented at all (a*n beyond the code point range, up to beyond 2**32): must raise
-        e, n = ch.choice([65536, 65537, 70000, 131072, 1000]), ch.choice([65536, 65537, 70000, 4099])
+        e, n = ch.choice([65536, 65537, 70000, 131072, 1000, 1100000]), ch.choice([4099, 2053, 1031, 4099])  # (every unit of n costs one multiplication)
         return {"property": ID, "run_seed": rs, "tier": tier, "prelude": prelude.gen_prelude(core.Chooser(rs, "prelude")),
                 "steps": [{"id": 0, "k": "journey", "names": [ch.choice(["q0", "q3"])], "start": {"exponents": [[e]], "coefficients": [ch.choice([1, 2, -3])]},
                            "stages": [{"stage": "pow", "n": n, "observe": False}]}]}
@@ -123,7 +123,7 @@ def generate(rs: int, tier: str, index: int) -> dict:
         if kind == "pow":
             st["n"] = c.choice([2, 2, 3])
             if c.chance(0.25):
-                st["n"] = c.choice([65536, 65537, 70000, 4099])  # only used on single-term bases whose result is unrepresentable
+                st["n"] = c.choice([4099, 2053, 1031, 4099])  # only used on single-term bases whose result is unrepresentable
         if kind == "struct":
             st["permute"] = c.chance(0.5)  # a multi-field index of the raw view: field order differs from memory order
         if kind == "evalpart":
@@ -155,7 +155,14 @@ def generate(rs: int, tier: str, index: int) -> dict:
         if base not in start["exponents"]:
             start["exponents"].append(base)
             start["coefficients"].append(ct.choice([1, 2, 3]))
-    return {"property": ID, "run_seed": rs, "tier": tier, "prelude": prelude.gen_prelude(core.Chooser(rs, "prelude")), "steps": [{"id": 0, "k": "journey", "names": names, "start": start, "stages": stages}]}
+    journey = {"id": 0, "k": "journey", "names": names, "start": start, "stages": stages}
+    co = ch.sub("journey-env")
+    if co.chance(0.25):
+        # the statement says nothing about the retain options: monomials must not be confused under any of them
+        journey["options"] = {"retain_names": co.chance(0.3), "retain_coefficients": co.chance(0.5)}
+    if co.chance(0.3):
+        journey["exp_layout"] = "F"
+    return {"property": ID, "run_seed": rs, "tier": tier, "prelude": prelude.gen_prelude(core.Chooser(rs, "prelude")), "steps": [journey]}
 
 
 # ---------------------------------------------------------------------------
@@ -169,8 +176,13 @@ def _build(m: Dict[tuple, int], names: List[str]) -> Any:
     import numpoly
 
     exps = [list(k) for k in m]
-    return numpoly.polynomial_from_attributes(numpy.array(exps, dtype=numpy.int64).reshape(len(exps), len(names)), [numpy.array(v) for v in m.values()],
-                                              tuple(names), retain_coefficients=True, retain_names=True)
+    matrix = numpy.array(exps, dtype=numpy.int64).reshape(len(exps), len(names))
+    if _LAYOUT[0] == "F":
+        matrix = numpy.asfortranarray(matrix)  # the same matrix, stored column by column
+    return numpoly.polynomial_from_attributes(matrix, [numpy.array(v) for v in m.values()], tuple(names), retain_coefficients=True, retain_names=True)
+
+
+_LAYOUT = ["C"]
 
 
 def _build_subset(m: Dict[tuple, int], names: List[str]) -> Any:
@@ -311,6 +323,7 @@ class Runner:
         nv = len(names)
         m = _to_model(step["start"])
         trail = []
+        retaining = bool((step.get("options") or {}).get("retain_coefficients"))  # (repeated multiplication keeps every intermediate term then)
 
         def big(mm: Dict[tuple, int]) -> int:
             return max([max(k) for k in mm] or [0])
@@ -389,7 +402,8 @@ class Runner:
                     res = p(*([1] * nv))
                     scalar_want = sum(m.values())
                 elif kind == "evalpart":
-                    if not st.get("vars") or max((k[i] for k in m for i in range(nv) if i not in st["vars"]), default=0) > 600:
+                    kept_top = max((k[i] for k in m for i in range(nv) if i not in st["vars"]), default=0)
+                    if not st.get("vars") or kept_top > (20 if retaining else 600):
                         continue  # a kept indeterminate is raised to its power by repeated multiplication
                     vals = [v if all(k[i] <= 40 for k in m) else 1 for i, v in zip(st["vars"], st["vals"])]
                     res = p(**{names[i]: v for i, v in zip(st["vars"], vals)})
@@ -402,7 +416,7 @@ class Runner:
                         want[tuple(key)] = want.get(tuple(key), 0) + c
                     want = {k: c for k, c in want.items() if c != 0}
                 elif kind == "swap":
-                    if nv < 2 or big(m) > 300:
+                    if nv < 2 or big(m) > (20 if retaining else 100):
                         continue  # substitution raises the symbol to the power by repeated multiplication
                     a, b = numpoly.symbols(names[0]), numpoly.symbols(names[1])
                     res = p(**{names[0]: b, names[1]: a})
@@ -529,7 +543,14 @@ class Runner:
             elif step["k"] == "mulrow":
                 self.do_mulrow(step)
             else:
-                self.do_journey(step)
+                import numpoly
+
+                _LAYOUT[0] = step.get("exp_layout", "C")
+                try:
+                    with numpoly.global_options(**(step.get("options") or {})):
+                        self.do_journey(step)
+                finally:
+                    _LAYOUT[0] = "C"
 
 
 def execute(plan: dict) -> dict:
@@ -562,6 +583,9 @@ def simplify(plan: dict):
             yield dict(plan, steps=[dict(step, start=step["start"] + half, count=step["count"] - half)])
         return
     stages = step["stages"]
+    for key in ("options", "exp_layout"):
+        if step.get(key):
+            yield dict(plan, steps=[{k: v for k, v in step.items() if k != key}])
     for i in range(len(stages)):
         yield dict(plan, steps=[dict(step, stages=stages[:i] + stages[i + 1:])])
     start = step["start"]
